@@ -38,7 +38,7 @@ sys.path.insert(0, os.path.dirname(os.path.dirname(os.path.abspath(__file__))))
 from vlib import core, tla, tlc  # noqa: E402
 
 INVARIANTS = ["TypeOK", "Formula", "SumOne", "PermInvariant", "ShiftInvariant", "SplitInvariant",
-              "SingleBatchSNIS", "Enclosure"]
+              "ReplicateInvariant", "SingleBatchSNIS", "Enclosure"]
 REUSE_INVARIANTS = ["TypeOK", "CurrentHistoryOnly"] + INVARIANTS[1:]     # CurrentHistoryOnly only says something when the object is reused
 ACTIONS = ["Init", "Mix", "Weigh", "Normalise"]
 WRONG = ["NoLogZ", "NoMixW", "MixT", "MeanT", "MaxNorm"]
@@ -60,6 +60,7 @@ CONSTANTS
   SampleSalt = {salt}
   Reuse = {reuse}
   ReplMod = {replmod}
+  RepMax = {repmax}
 {invs}
 CHECK_DEADLOCK FALSE
 """
@@ -76,7 +77,7 @@ StateManager = None
 def cfg_text(c, variant="intended", invs=INVARIANTS):
     return CFG.format(ts=c["ts"], nmax=c["nmax"], kmax=c["kmax"], shiftmax=c["shiftmax"], variant=variant,
                       mod=c.get("mod", 1), bmod=c.get("bmod", 1), salt=c.get("salt", 0),
-                      reuse=c.get("reuse", "FALSE"), replmod=c.get("replmod", 1),
+                      reuse=c.get("reuse", "FALSE"), replmod=c.get("replmod", 1), repmax=c.get("repmax", 3),
                       invs="\n".join("INVARIANT " + i for i in invs))
 
 
@@ -262,11 +263,15 @@ def replay_case(st, idx):
 
 def worker(args):
     base_idx, blocks, collect = args
-    res = {"table": [], "cases": 0, "evals": 0, "nontrivial": 0, "viol": [], "nviol": 0, "byT": {}, "base_err": 0.0, "shift_err": 0.0, "sample": None}
+    res = {"table": [], "sizecand": [], "cases": 0, "evals": 0, "nontrivial": 0, "viol": [], "nviol": 0, "byT": {}, "base_err": 0.0, "shift_err": 0.0, "sample": None}
     for i, block in enumerate(blocks):
         st = tla.parse_state_block(block)
         if collect:
             res["table"].append((hkey(st["hist"]), st["bf"], st["w"], st["z"], st["W"]))
+        hh = st["hist"]
+        if (len(res["sizecand"]) < 2 and len(hh) >= 2 and st["bf"] >= 1 and len({b["n"] for b in hh}) >= 2
+                and len({b["b"] for b in hh}) >= 2 and len(set(st["W"])) >= 2):
+            res["sizecand"].append((hkey(hh), st["bf"], st["w"], st["z"], st["W"]))
         out, evals, nt, stats, case = replay_case(st, base_idx + i)
         res["cases"] += 1
         res["evals"] += evals
@@ -309,6 +314,88 @@ def done_chunks(path, chunk=400, collect=False):
         flush_state()
     if blocks:
         yield idx, blocks, collect
+
+
+# ------------------------------------------------------------------------------------------------
+# size family: images of an enumerated case under the spec's ReplicateInvariant (every sample stored R times)
+
+EPS = 2.220446049250313e-16
+LAST_SIZE_ERRORS = {}
+
+
+def size_replay(cand, R):
+    """cand = (history key, bf, w, z, W) from the TLC dump.  The history with every sample repeated R times has the
+    same unnormalised weights and evidence and normalised weights W/R (ReplicateInvariant).  Weights are row-wise
+    quantities (tolerance 1e-12); logz and the normaliser are sums over the R*N samples accumulated sequentially by
+    logaddexp.reduce, so they carry up to ~R*N roundings: tolerance max(1e-12, 4*R*N*eps)."""
+    hk, bf, w, z, W = cand
+    N, T = sum(b[0] for b in hk), len(hk)
+    NR = R * N
+    tol_sum = max(REL, 4.0 * NR * EPS)
+    out = []
+    LAST_SIZE_ERRORS.clear()
+    ctx = {"size_case": {"hist": hk, "bf": bf, "w": [list(q) for q in w], "z": list(z), "W": [list(q) for q in W], "R": R,
+                         "entries": NR * T}}
+    try:
+        sm = StateManager(n_dim=1)
+        for it, (n, b, m, ks) in enumerate(hk, 1):     # u / x are not needed by the weights: keep the memory for logl
+            sm.set_current("logl", np.repeat(np.array(ks, dtype=float) * LN2, R))
+            sm.set_current("beta", b / 2.0)
+            sm.set_current("logz", m * LN2)
+            sm.set_current("iter", it)
+            sm.commit_current_to_history()
+        lw_n, lz_n, lw_u, lz_u = call(sm, bf / 2.0)
+        del sm
+        if lw_n.shape != (NR,) or lw_u.shape != (NR,):
+            out.append(("size:length", f"{lw_n.size} log-weights for {NR} stored samples", ctx))
+            return out
+        if not (np.all(np.isfinite(lw_n)) and np.all(np.isfinite(lw_u)) and math.isfinite(lz_u) and math.isfinite(lz_n)):
+            out.append(("size:nonfinite", "non-finite weights / evidence", ctx))
+            return out
+        w_exp = np.repeat(np.array([a / b for a, b in w]), R)
+        W_exp = np.repeat(np.array([a / b for a, b in W]), R) / R
+        z_exp = z[0] / z[1]
+        eu = float(np.max(np.abs(np.exp(lw_u) / w_exp - 1.0)))
+        en = float(np.max(np.abs(np.exp(lw_n) / W_exp - 1.0)))
+        ez = max(abs(math.exp(lz_u) / z_exp - 1.0), abs(math.exp(lz_n) / z_exp - 1.0))
+        es = abs(float(np.exp(lw_n).sum()) - 1.0)
+        ctx["errors"] = {"unnormalised": eu, "normalised": en, "evidence": ez, "sum": es}
+        LAST_SIZE_ERRORS.clear()
+        LAST_SIZE_ERRORS.update(ctx["errors"])
+        where = f"R={R}, {NR} samples x {T} iterations = {NR * T} entries"
+        if not eu <= REL:
+            out.append(("size:unnormalised-weights", f"{where}: exp(logw) differs from the spec's rationals (rel err {eu:.3g})", ctx))
+        if not en <= tol_sum:
+            out.append(("size:normalised-weights", f"{where}: R*exp(logw) differs from the spec's normalised weights (rel err {en:.3g} > {tol_sum:.3g})", ctx))
+        if not ez <= tol_sum:
+            out.append(("size:evidence", f"{where}: exp(logz) = {math.exp(lz_u)!r}, spec {z[0]}/{z[1]} (rel err {ez:.3g} > {tol_sum:.3g})", ctx))
+        if not es <= tol_sum:
+            out.append(("size:sum", f"{where}: normalised weights sum to 1 + {es:.3g}", ctx))
+    except Exception as ex:
+        out.append(("size:raised", f"R={R}: raised {ex!r}", ctx))
+    return out
+
+
+def size_plan(cands, tier, rng):
+    """[(candidate, [target number of sample-by-iteration entries, ...])]: around 2^20, 2^22, on both sides of 2^23, 10^7."""
+    byT = {}
+    for c in sorted(set(cands)):
+        byT.setdefault(len(c[0]), []).append(c)
+    pick = lambda T: byT[T][rng.randint(len(byT[T]))] if byT.get(T) else None  # noqa: E731
+    if tier == "quick":
+        plan = [(pick(3) or pick(2), [2 ** 20 + 1, 2 ** 22 + 1, 10 ** 7]), (pick(2), [2 ** 23, 2 ** 23 + 1]), (pick(3) or pick(2), [10 ** 7])]
+    else:
+        plan = []
+        for i in range(12):
+            T = 3 if i % 2 == 0 and byT.get(3) else 2
+            plan.append((pick(T), [[2 ** 20 + 1, 10 ** 7], [2 ** 21 + 1, 2 ** 23, 2 ** 23 + 1], [2 ** 22 + 1, 12 * 10 ** 6], [2 ** 19 + 1, 10 ** 7]][i % 4]))
+    return [(c, t) for c, t in plan if c is not None]
+
+
+def size_R(cand, target):
+    """largest R with R*N*T <= target if target is a power of two (stay at / below the boundary), else smallest R reaching it."""
+    nt = sum(b[0] for b in cand[0]) * len(cand[0])
+    return max(1, target // nt) if target & (target - 1) == 0 else -(-target // nt)
 
 
 # ------------------------------------------------------------------------------------------------
@@ -537,15 +624,15 @@ def models(tier, seed):
         return [
             ("T<=2 n<=2 |k|<=2", dict(ts="{1, 2}", nmax=2, kmax=2, shiftmax=4, workers=8), True),
             ("T=1 n<=3 |k|<=4", dict(ts="{1}", nmax=3, kmax=4, shiftmax=4), True),
-            ("T=2 n<=3 |k|<=4 sampled", dict(ts="{2}", nmax=3, kmax=4, shiftmax=2, bmod=4, mod=5, salt=seed % 20), False),
+            ("T=2 n<=3 |k|<=4 sampled", dict(ts="{2}", nmax=3, kmax=4, shiftmax=2, bmod=4, mod=5, salt=seed % 20, repmax=2), False),
             ("T=3 n<=2 |k|<=2 sampled", dict(ts="{3}", nmax=2, kmax=2, shiftmax=4, bmod=3, mod=7, salt=seed % 21), False),
         ]
     return [
-        ("T<=2 n<=2 |k|<=4", dict(ts="{1, 2}", nmax=2, kmax=4, shiftmax=4, workers=6), True),
+        ("T<=2 n<=2 |k|<=4", dict(ts="{1, 2}", nmax=2, kmax=4, shiftmax=4, workers=6, repmax=2), True),
         ("T=1 n<=3 |k|<=4", dict(ts="{1}", nmax=3, kmax=4, shiftmax=4), True),
-        ("T=2 n<=3 |k|<=4 sampled", dict(ts="{2}", nmax=3, kmax=4, shiftmax=2, mod=5, salt=seed % 5, workers=8), False),
+        ("T=2 n<=3 |k|<=4 sampled", dict(ts="{2}", nmax=3, kmax=4, shiftmax=2, mod=5, salt=seed % 5, workers=8, repmax=2), False),
         ("T=3 n<=1 |k|<=2", dict(ts="{3}", nmax=1, kmax=2, shiftmax=4), True),
-        ("T=3 n<=2 |k|<=2 sampled", dict(ts="{3}", nmax=2, kmax=2, shiftmax=4, mod=8, salt=seed % 8, workers=8), False),
+        ("T=3 n<=2 |k|<=2 sampled", dict(ts="{3}", nmax=2, kmax=2, shiftmax=4, mod=8, salt=seed % 8, workers=8, repmax=2), False),
     ]
 
 
@@ -574,6 +661,13 @@ def main():
             for key, what, r in out:
                 ck.violation(key, what, r)
             ck.finish({"states": 1, "transitions": 1, "traces_validated_against_impl": info["loads"], "replayed_file": ck.args.replay})
+        if "size_case" in rp:
+            q = rp["size_case"]
+            cand = (tuple((b[0], b[1], b[2], tuple(b[3])) for b in q["hist"]), q["bf"], tuple(tuple(x) for x in q["w"]),
+                    tuple(q["z"]), tuple(tuple(x) for x in q["W"]))
+            for key, what, r in size_replay(cand, q["R"]):
+                ck.violation(key, what, r)
+            ck.finish({"states": 1, "transitions": 1, "traces_validated_against_impl": 1, "evaluations": 2, "replayed_file": ck.args.replay})
         if "sequence" in rp:
             q = rp["sequence"]
             tup = lambda h: tuple((b[0], b[1], b[2], tuple(b[3])) for b in h)  # noqa: E731
@@ -686,6 +780,7 @@ def main():
     global TABLE
     tot = {"cases": 0, "evals": 0, "nontrivial": 0, "nviol": 0, "byT": {}, "base_err": 0.0, "shift_err": 0.0}
     table = {}
+    sizecands = []
     ctx = mp.get_context("fork")
     with ctx.Pool(nprocs) as pool:
         for mi, ((name, c, _), r) in enumerate(zip(mods, results)):
@@ -694,6 +789,8 @@ def main():
                 n_model += res["cases"]
                 for hk, f, w, z, W in res["table"]:
                     table[(hk, f)] = (w, z, W)
+                if len(sizecands) < 4000:
+                    sizecands += res["sizecand"]
                 for k in ("cases", "evals", "nontrivial", "nviol"):
                     tot[k] += res[k]
                 for T, n in res["byT"].items():
@@ -752,6 +849,23 @@ def main():
     finally:
         shutil.rmtree(tmp, ignore_errors=True)
     reuse["sampler_wall_s"] = round(time.time() - t_reuse, 2)
+
+    # ---- size family (sequential, in this process: one dense N x T matrix of ~80 MB at a time)
+    t_size = time.time()
+    size = {"cases": [], "evaluations": 0}
+    for cand, targets in size_plan(sizecands, ck.tier, np.random.RandomState(ck.seed + 23)):
+        for target in targets:
+            R = size_R(cand, target)
+            vio = size_replay(cand, R)
+            size["evaluations"] += 2
+            nt = sum(b[0] for b in cand[0]) * len(cand[0])
+            size["cases"].append({"hist": cand[0], "bf": cand[1], "R": R, "entries": R * nt, "rel_errors": dict(LAST_SIZE_ERRORS)})
+            for key, what, rp in vio:
+                ck.violation(key, what, rp)
+    size["wall_s"] = round(time.time() - t_size, 2)
+    if not size["cases"] or max(c["entries"] for c in size["cases"]) <= 2 ** 23:
+        raise RuntimeError(f"size family did not reach 2^23 entries: {size}")
+
     reuse["sampler_level"] = sam_info
     reuse["tlc_model"] = {"constants": REUSE_MODEL, "distinct_states": reuse_res.distinct, "generated": reuse_res.generated,
                           "tlc_coverage": {k: list(v) for k, v in reuse_res.coverage.items()}}
@@ -764,15 +878,17 @@ def main():
     ck.finish({
         "states": states,
         "transitions": transitions,
-        "traces_validated_against_impl": tot["cases"] + reuse["sequences"],
-        "evaluations": tot["evals"] + reuse["queries"],
+        "traces_validated_against_impl": tot["cases"] + reuse["sequences"] + len(size["cases"]),
+        "evaluations": tot["evals"] + reuse["queries"] + size["evaluations"],
         "distinct_nontrivial": tot["nontrivial"],
         "rule": "each pc=done state of MISWeights.tla (history, bf, exact w, Z, W) is one case; non-trivial = T >= 2 with at "
                 "least two distinct (beta_t, logZ_t) components and non-uniform expected weights; every case is replayed at "
                 "base scale (normalize on/off), under 8 likelihood shifts |c| up to 1e6 and 2 spread images (+-1e6 inside one history); "
                 "object reuse: seeded sequences h1 -> query -> replace by h2 (update_from_dict | save_state+load_state) -> 2 queries "
                 "+ compute_results -> commit -> query on ONE StateManager, each answer against the spec's rationals of the history "
-                "stored at that moment (oracle = the exhaustive T<=2 model's dump), plus finished Sampler runs loading their own earlier checkpoints",
+                "stored at that moment (oracle = the exhaustive T<=2 model's dump), plus finished Sampler runs loading their own earlier checkpoints; "
+                "size family: enumerated T = 2 / 3 cases with unequal batch sizes and mixed temperatures replayed with every sample stored R times "
+                "(ReplicateInvariant) at about 2^20, 2^22, 2^23 (both sides) and 10^7 sample-by-iteration entries",
         "exhaustive": all(e for _, _, e in mods),
         "exhaustive_models": [n for n, _, e in mods if e],
         "sampled_models": [n for n, _, e in mods if not e],
@@ -781,6 +897,7 @@ def main():
         "max_abs_err_over_c_shift": tot["shift_err"],
         "wrong_formulas_refuted_by_tlc": refuted,
         "object_reuse": reuse,
+        "size_family": size,
         "models": cov,
         "invariants": REUSE_INVARIANTS,
     })
